@@ -351,7 +351,7 @@ PROPS = {
     ),
     "C10": dict(
         modules=["Whawty.Props.C10"],
-        suites=[("overlay", "v10"), ("overlay", "v10adv"), ("overlay", "v10ab"), ("overlay4", "v10fd")],
+        suites=[("overlay", "v10"), ("overlay", "v10adv"), ("overlay", "v10ab"), ("overlay4", "v10fd"), ("overlay", "v10h")],
         level_text="The dispatcher, its request channels, the upgrade queue and the hooks notification channel are a "
                    "labelled transition system with one executable successor function; dispatcher_never_stuck (no "
                    "reachable dispatcher deadlock for modes off / remote / local-with-non-blocking-enqueue, ALL "
